@@ -61,9 +61,13 @@ def build(case):
     spec = F.make_spec(SCHEMES[case["scheme"]], variant=0, seed=case.get("seed", 0))
     scheme = S.build_scheme(spec, optimization_method=case["method"], maximum_number_function_evaluations=case.get("nfev", 4))
     if case["scheme"] == "nonneg":
-        for p in scheme.parameters.all():
-            if p.label.startswith("rate."):
-                p.non_negative = True
+        rates = [p for p in scheme.parameters.all() if p.label.startswith("rate.")]
+        for p in rates:
+            p.non_negative = True
+        # ... and the last rate is defined by an expression of the first (re-evaluated at every evaluation: the caller's
+        # scheme must still hold the value it was given)
+        rates[-1].expression = f"${rates[0].label} * 3.5"
+        scheme.parameters.update_parameter_expression()
     return spec, scheme
 
 
